@@ -15,9 +15,14 @@
   `exactly_the_legal_moves_along_chains`, `exactly_the_legal_moves_from_the_start_position`: the same
   at every position reachable by generated moves (either mode) from a well-formed position, in
   particular from the start position — legal positions are closed under legal moves.
-  "No move appears twice" (the successor list has no two entries with the same move) is decided on
-  every run by the correspondence with the SPEC oracle (exhaustive castling lattice, two-ply special chains,
-  playouts, constructed positions).  Also proved, for every position satisfying the chain invariant
+  "No move appears twice" is proved as well (`no_move_appears_twice`, Proofs/NoDupGeo + NoDup): the
+  target list of a piece is a sub-list of a fixed geometric list that is repetition free for each of
+  the 64 origins (kernel computation), successors of one target differ in the promotion piece, of
+  different targets/origins in the squares, and the SPEC classifies ordinary, en passant and castling
+  moves differently.  `exactly_the_legal_moves_of_every_fen_position`: all of this for every legal
+  position given as FEN text and everything reachable from it.  The tie to the Rust code is the
+  correspondence with the SPEC oracle (exhaustive castling lattice, two-ply special chains,
+  playouts, constructed positions; move multisets compared).  Also proved, for every position satisfying the chain invariant
   and every hasher:
     * the SPEC side: `legalMoves` is sound, complete and duplicate free for `legal` (by construction);
     * `gen_targets_not_sentinel`: every pseudo-legal target is an on-board square that is empty or
@@ -36,6 +41,7 @@ import Walleye.Proofs.Complete
 import Walleye.Props.C02
 import Walleye.Props.C05
 import Walleye.Proofs.FenFaithful
+import Walleye.Proofs.NoDup
 namespace Walleye
 
 theorem spec_legalMoves_sound_complete (P : Spec.Position) (m : Spec.Move) (hm : m ∈ Spec.allMoves) :
@@ -115,14 +121,21 @@ theorem exactly_the_legal_moves_from_the_start_position (q : Pos) (hc : GenChain
     (∃ s ∈ generateMoves Hasher.real q .all, moveOf s = m) ↔ Spec.legal (abs q) m = true :=
   exactly_the_legal_moves_along_chains Hasher.real startPosition q start_wf start_inv hc m
 
+/-- **no move appears twice**: the successors carry pairwise different (from, to, promotion piece),
+    at every position reachable by generated moves from a well-formed one -/
+theorem no_move_appears_twice (h : Hasher) (p q : Pos) (wf : WFp p) (hinv : Inv h p) (hc : GenChain h p q) :
+    ((generateMoves h q .all).map moveOf).Nodup :=
+  generateMoves_nodup h q (gen_chain_wf h p q wf hinv hc).1 .all
+
 /-- **C01 for every legal position given as FEN**, and for every position reached from it by generated
     moves: the position loaded from the canonical FEN text of a legal SPEC position `P` (any counters)
     abstracts to `P`, and the generator yields exactly the legal moves there and along every chain -/
 theorem exactly_the_legal_moves_of_every_fen_position (h : Hasher) (P : Spec.Position) (hsz : P.cells.size = 64)
     (hlegal : Spec.LegalPosition P = true) (half full : List Char) (hh : CounterOK half) (hf : CounterOK full) :
     ∃ p, fromFen h (canonText P half full) = .ok p ∧ abs p = P ∧
-      ∀ q, GenChain h p q → ∀ m : Spec.Move,
-        ((∃ s ∈ generateMoves h q .all, moveOf s = m) ↔ Spec.legal (abs q) m = true) := by
+      ∀ q, GenChain h p q →
+        ((generateMoves h q .all).map moveOf).Nodup ∧
+        ∀ m : Spec.Move, ((∃ s ∈ generateMoves h q .all, moveOf s = m) ↔ Spec.legal (abs q) m = true) := by
   have hlp := LP_of P hlegal
   have hep : ∀ e, P.ep = some e → InB e := by
     intro e he
@@ -131,7 +144,8 @@ theorem exactly_the_legal_moves_of_every_fen_position (h : Hasher) (P : Spec.Pos
     rw [h2]; cases P.side.opp <;> decide
   obtain ⟨p, hload, habs, hwf⟩ := fromFen_canonical h P hsz hep half full hh hf
   obtain ⟨wf, hinv⟩ := hwf hlp
-  exact ⟨p, hload, habs, fun q hc m => exactly_the_legal_moves_along_chains h p q wf hinv hc m⟩
+  exact ⟨p, hload, habs, fun q hc => ⟨no_move_appears_twice h p q wf hinv hc,
+    fun m => exactly_the_legal_moves_along_chains h p q wf hinv hc m⟩⟩
 
 /-- the premises are satisfiable: the start position is well formed -/
 theorem start_is_well_formed : WFp startPosition := start_wf
